@@ -1,5 +1,7 @@
 import MorfuseModel.Sched.Machine
 import MorfuseModel.Sched.MachineHostProps
+import MorfuseModel.Sched.MachineInstHost
+import MorfuseModel.Sched.MachineInstReset
 /-!
 # C13 — nothing outlives its script: idle means empty, reset means clean
 
@@ -235,5 +237,140 @@ example : (runOps {} (demoQuiesce ++ [.step 5])).outOfFuel = false ∧
 /-- `Reset()` in the suspended state destroys both threads -/
 example : (hostReset (runOps {} demoQuiesce)).outOfFuel = false ∧ (hostReset (runOps {} demoQuiesce)).threads = [] ∧
     idleFlag (hostReset (runOps {} demoQuiesce)) = true := by decide +kernel
+
+/-! ## Machine level, with the instance list: the idle flag itself
+
+`reachable_hinv2` (`Sched/MachineInstHost.lean`): in every reachable state (same `Reachable` as above, modulo
+fuel) the instance-list invariant `J []` holds — every thread record that still has its VM is in the chain
+of the *listed* script instance `th.inst`; every listed instance has a non-empty, duplicate-free chain of
+live records (not dead, VM not destroyed, attached) of that instance.  Proved through every function of the
+machine (`jqAll`: destruction cascades, under the structural invariant alone; `jAll`: instructions,
+`Process`, `ScriptVM::Execute`, the timer loop, `ScriptExecuteInternal`, on top of `iAll`) and through
+`~ScriptClass` / `Reset` / recompile with the instance being destroyed exempt. -/
+
+/-- `chainOf` of this file is the `instChain` of the invariant -/
+theorem chainOf_eq_instChain (s : State) (i : Nat) : chainOf s i = instChain s.insts i := rfl
+
+/-- **Suspended is not idle, machine level.**  In every reachable state, while some thread is `timing` or
+    `waiting` its script instance is in the director's list with that thread in its chain, so the engine's
+    idle flag is down. -/
+theorem C13_machine_suspended_not_idle {s : State} (h : Reachable s) :
+    s.outOfFuel = true ∨
+      ∀ t th, s.th? t = some th → (th.ts = .timing ∨ th.ts = .waiting) →
+        t ∈ chainOf s th.inst ∧ hasInst s th.inst = true ∧ idleFlag s = false := by
+  refine (reachable_hinv2 h).map (fun hi t th hf hs => ?_)
+  have hv := (hi.h.inv.suspended_live hf hs).1
+  rw [State.th?_eq] at hf
+  have hm : t ∈ instChain s.insts th.inst := by
+    rcases hi.j.a t th hf hv with m | m
+    · cases m
+    · exact m
+  obtain ⟨e, he, hk, _⟩ := instChain_mem hm
+  refine ⟨hm, ?_, ?_⟩
+  · unfold hasInst
+    exact List.any_eq_true.2 ⟨e, he, by simpa using hk⟩
+  · unfold idleFlag
+    cases hL : s.insts with
+    | nil => rw [hL] at he; cases he
+    | cons a l => rfl
+
+/-- **Quiescent means idle, machine level.**  In every reachable state in which no thread record is live
+    and the event queue is drained, the director's instance list, the timer and both listener tables are
+    empty and the engine's idle flag is up.
+    (That the queue holds no event of a dead thread is not part of the invariant — `cancelEvents` runs in
+    every thread destructor, compared with the engine — hence the hypothesis.) -/
+theorem C13_machine_quiescent_means_idle {s : State} (h : Reachable s) :
+    s.outOfFuel = true ∨
+      ((∀ t th, s.th? t = some th → th.dead = true) → s.events = [] →
+        idleFlag s = true ∧ s.insts = [] ∧ s.timer.elems = [] ∧ s.notify = [] ∧ s.waitFor = []) := by
+  refine (reachable_hinv2 h).map (fun hi hq hev => ?_)
+  have hI : s.insts = [] := by
+    cases hL : s.insts with
+    | nil => rfl
+    | cons e l =>
+      exfalso
+      have he : e ∈ s.insts := by rw [hL]; exact List.mem_cons_self
+      obtain ⟨b1, _, b3⟩ := hi.j.b e he
+      obtain ⟨u, hu⟩ := List.exists_mem_of_ne_nil _ b1
+      obtain ⟨th, h1, h2, _⟩ := b3 u hu
+      rw [hq u th h1] at h2; cases h2
+  obtain ⟨q1, q2, q3⟩ := hi.h.inv.quiescent_empty hq
+  exact ⟨by unfold idleFlag; rw [hI, hev]; rfl, hI, q1, q2, q3⟩
+
+/-- **Every listed instance is alive, machine level**: in every reachable state each instance in the
+    director's list has a non-empty chain without duplicates, every member is a live thread record of that
+    instance whose VM exists; and every thread that has its VM is in exactly that chain. -/
+theorem C13_machine_instances_consistent {s : State} (h : Reachable s) :
+    s.outOfFuel = true ∨
+      ((∀ e ∈ s.insts, e.2 ≠ [] ∧ e.2.Nodup ∧ ∀ t ∈ e.2, ∃ th, s.th? t = some th ∧ th.dead = false ∧
+          th.vm ≠ .destroyed ∧ th.inst = e.1) ∧
+       (∀ t th, s.th? t = some th → th.hasVM = true → t ∈ chainOf s th.inst)) := by
+  refine (reachable_hinv2 h).map (fun hi => ⟨fun e he => ?_, fun t th hf hv => ?_⟩)
+  · obtain ⟨b1, b2, b3⟩ := hi.j.b e he
+    exact ⟨b1, b2, fun t ht => by
+      obtain ⟨th, k1, k2, k3, k4, _⟩ := b3 t ht
+      exact ⟨th, k1, k2, k3, k4⟩⟩
+  · rcases hi.j.a t th hf hv with m | m
+    · cases m
+    · exact m
+
+/-! ### non-vacuity -/
+
+/-- the suspended demo state: both threads are in the chain of instance 1 -/
+example : (runOps {} demoQuiesce).insts = [(1, [101, 100])] ∧ idleFlag (runOps {} demoQuiesce) = false := by
+  decide +kernel
+
+/-- two instances (the second from `waitthread`), three suspended threads -/
+example : (runOps {} [.script [[.waitthread 1, .mark 1], [.thread 2, .wait 5], [.wait 9]] [0, 0, 0], .call 0 []]).insts =
+    [(2, [102, 101]), (1, [100])] := by decide +kernel
+
+/-- **`Reset()` is clean, machine level (partial).**  After `director.Reset()` in any reachable state (unless
+    out of fuel): no script instance is listed, no thread record has a VM, the timer and both listener
+    tables are empty, no program is compiled — and the machine invariant holds again.
+    *Missing for "bookkeeping equal to the initial state's"*: that no record at all is left (`threads = []`:
+    needs "between host operations every VM is idle", so that each destructor also frees the record) and
+    that the event queue is empty (`cancelEvents` in every destructor; events are not part of the
+    invariant).  Both are compared with the engine (pool counts, `ev=` after every command). -/
+theorem C13_machine_reset_clean_partial {s : State} (h : Reachable s) :
+    (hostReset s).outOfFuel = true ∨
+      ((hostReset s).insts = [] ∧ (∀ t th, (hostReset s).th? t = some th → th.hasVM = false) ∧
+       (hostReset s).timer.elems = [] ∧ (hostReset s).notify = [] ∧ (hostReset s).waitFor = [] ∧
+       (hostReset s).prog = [] ∧ HInv2 (hostReset s)) := by
+  have hr : Reachable (HostOp.apply s .resetDirector) := .step .resetDirector h trivial
+  have h2 : Ok (hostReset s) (HInv2 (hostReset s)) := reachable_hinv2 hr
+  rcases reachable_hinv2 h with ho | hi
+  · exact Or.inl ((hostReset_hr s).oof ho)
+  · rcases killAllInsts_clean hi with ho | ⟨p1, p2, p3, p4, p5⟩
+    · exact Or.inl ho
+    · rcases h2 with ho | q2
+      · exact Or.inl ho
+      · exact Or.inr ⟨p1, p2, p3, p4, p5, rfl, q2⟩
+
+/-- **Recompiling destroys every instance of the old program, machine level.**  `GetProgramScript(…,
+    recompile)` while a program is loaded (the machine has one program per context): afterwards (unless out
+    of fuel) no instance of the old version is listed and no thread of it has a VM; the new program is
+    installed and the invariant holds. -/
+theorem C13_machine_recompile_kills_old_instances {s : State} (h : Reachable s) (p : List (List Instr))
+    (ps : List Nat) (hp : ProgOK p) (hold : s.prog.isEmpty = false) :
+    (hostScript s p ps).outOfFuel = true ∨
+      ((hostScript s p ps).insts = [] ∧ (∀ t th, (hostScript s p ps).th? t = some th → th.hasVM = false) ∧
+       (hostScript s p ps).timer.elems = [] ∧ (hostScript s p ps).prog = p ∧ HInv2 (hostScript s p ps)) := by
+  have hr : Reachable (HostOp.apply s (.script p ps)) := .step (.script p ps) h hp
+  have h2 : Ok (hostScript s p ps) (HInv2 (hostScript s p ps)) := reachable_hinv2 hr
+  have he : hostScript s p ps = { killAllInsts s with prog := p, progParams := ps } := by
+    unfold hostScript; simp [hold]
+  rcases reachable_hinv2 h with ho | hi
+  · exact Or.inl ((hostScript_hr s p ps).oof ho)
+  · rcases killAllInsts_clean hi with ho | ⟨p1, p2, p3, _, _⟩
+    · left; rw [he]; exact ho
+    · rcases h2 with ho | q2
+      · exact Or.inl ho
+      · right
+        rw [he] at q2 ⊢
+        exact ⟨p1, p2, p3, rfl, q2⟩
+
+/-- `Reset()` in the suspended demo state -/
+example : (hostReset (runOps {} demoQuiesce)).outOfFuel = false ∧ (hostReset (runOps {} demoQuiesce)).insts = [] := by
+  decide +kernel
 
 end Morfuse.Sched
